@@ -401,6 +401,7 @@ fn base_scenario(shape: u64) -> Scenario {
         attacks: vec![],
         evil: None,
         tp: None,
+        key_update_after: None,
     }
 }
 
